@@ -202,6 +202,9 @@ def _work(chunk):
     i, n, mode = chunk
     from pjplan import Resource
     acc = runtime.Acc()
+    if mode == 'sharing':
+        sharing_checks(acc, 'thorough' if _DEPTH >= 2 else 'quick', i, n)
+        return acc
     ds = dates()
     if mode == 'leaves':
         gen = all_weekly_leaves()
@@ -284,6 +287,66 @@ def search(e, cal, res, acc):
                                   {'expr': show(e), 'start': str(s), 'direction': direction, 'max_days': md})
 
 
+def sharing_checks(acc, tier, part=0, parts=1):
+    """Operands are shared objects in real use: building further expressions from a calendar must not change what
+    that calendar (or any expression built earlier from it) answers. For every depth-1 expression L built once,
+    two further expressions are built from the same L object, then all three are evaluated."""
+    from pjplan import Resource
+    ds = dates()[::3] if tier == 'quick' else dates()
+    leaves = list(LEAVES)
+    rights = leaves + [('num', s) for s in SCALARS]
+    base = [l for l in leaves] + [('op', o, l, r) for l in leaves[:6] for o in OPS for r in (rights if tier == 'thorough' else rights[::3])
+                                  if not (o == '/' and r[0] == 'num' and r[1] == 0)]
+    ext = [(o, r) for o in OPS for r in (rights[::4] + [('num', 2)])]
+    for L in base[part::parts]:
+        try:
+            lobj = build(L)
+        except Exception:  # noqa
+            continue
+        robjs = {}
+        for (o1, r1), (o2, r2) in itertools.product(ext, repeat=2) if tier == 'thorough' else zip(ext, ext[1:] + ext[:1]):
+            objs = [(L, lobj)]
+            try:
+                for o, r in ((o1, r1), (o2, r2)):
+                    rob = robjs.get(r)
+                    if rob is None:
+                        rob = robjs[r] = build(r)
+                    e = ('op', o, L, r)
+                    if o == '+':
+                        ob = lobj + rob
+                    elif o == '-':
+                        ob = lobj - rob
+                    elif o == '*':
+                        ob = lobj * rob
+                    elif o == '/':
+                        ob = lobj / rob
+                    else:
+                        ob = lobj | rob
+                    objs.append((e, ob))
+                    if r[0] != 'num':
+                        objs.append((r, rob))
+            except RuntimeError:
+                continue
+            acc.count('sharing_cases')
+            acc.count('nontrivial')
+            for e, ob in objs:
+                for d in ds:
+                    exp = ref(e, d)
+                    if exp == 'UNDEF':
+                        continue
+                    try:
+                        got = ob.get_available_units(d)
+                    except Exception as ex:  # noqa
+                        got = type(ex).__name__
+                    acc.count('lookups')
+                    if isinstance(got, str) or not veq(got, exp):
+                        acc.violation('C17', 'sharing/operand-or-earlier-expression-changed/' + (e[1] if e[0] == 'op' else e[0]),
+                                      f'after building ({show(L)} {o1} {show(r1)}) and ({show(L)} {o2} {show(r2)}) from the same objects, '
+                                      f'{show(e)} on {d:%a %m-%d %H:%M} answers {got}, reference {exp}',
+                                      {'L': show(L), 'ops': [o1, show(r1), o2, show(r2)], 'expr': show(e), 'date': str(d)})
+                        break
+
+
 def constructor_checks(acc):
     from pjplan import WeeklyCalendar, DirectCalendar, FixedCalendar
     cases = []
@@ -330,7 +393,7 @@ def run(rep):
     _DEPTH = 1 if rep.tier == 'quick' else 2
     nw = runtime.n_workers()
     k = nw * 3
-    chunks = [(i, k, 'exprs') for i in range(k)] + [(i, nw, 'leaves') for i in range(nw)]
+    chunks = [(i, k, 'exprs') for i in range(k)] + [(i, nw, 'leaves') for i in range(nw)] + [(i, k, 'sharing') for i in range(k)]
     runtime.run_chunks(_work, chunks, rep.acc)
     constructor_checks(rep.acc)
     c = rep.acc.counters
@@ -343,6 +406,7 @@ def run(rep):
                 f'distinct expressions with at least one none/zero value in the window, plus the constructor cases',
         'expressions': c['expressions'], 'lookups': c['lookups'], 'searches': c['searches'],
         'skipped_division_by_zero_valued_calendar': c['skipped_division_by_zero_valued_calendar'],
+        'shared_operand_cases': c['sharing_cases'],
         'searches_that_must_raise': c['premise:search-fails-within-horizon'], 'exhaustive': True,
     })
     rep.assumptions += ['quotients whose divisor evaluates to 0 on the queried date are outside the statement and skipped',
